@@ -165,22 +165,39 @@ def wait_for_cycle(m: Model, r: Report, rid: str, cg: CallGraph, lm: LockModel, 
 
 
 def address_filter(r: Report, rid: str, fn: FuncInfo, atoms_want: set[str], m: Model | None = None) -> None:
-    """The skip-condition over the two address fields must be a disjunction of both inequalities."""
+    """The skip-condition over the two address fields must be the disjunction of both inequalities - in any spelling: `a != x or b != y`,
+    `not (a == x and b == y)`, a named condition tested afterwards (compared in conjunctive normal form after resolving named conditions)."""
+    from sa.util import cnf, subst_locals
+    node = subst_locals(fn.node, fn.node, conditions=True)
+
+    def txt(e: ast.AST) -> str:
+        return (m.mtext(fn, e) if m is not None else ast.unparse(e)).replace(" ", "")
+    want_expr = ast.parse(" or ".join(f"({a})" for a in sorted(atoms_want)), mode="eval").body
+    if m is not None:
+        want_expr = ast.parse(m.mpat(fn, ast.unparse(want_expr)), mode="eval").body
+    want = {frozenset((t.replace(" ", ""), p) for t, p in c) for c in (cnf(want_expr, True) or [])}
     found = False
-    for n in walk_no_nested(fn.node):
-        if isinstance(n, ast.If) and isinstance(n.test, ast.BoolOp):
-            if m is not None:
-                norm = {m.mtext(fn, v).replace(" ", "") for v in n.test.values}
-                want = {m.mpat(fn, a).replace(" ", "") for a in atoms_want}
-            else:
-                norm = {ast.unparse(v).replace(" ", "") for v in n.test.values}
-                want = {a.replace(" ", "") for a in atoms_want}
-            if norm == want:
-                found = True
-                r.check(isinstance(n.test.op, ast.Or) and any(isinstance(s, ast.Continue) for s in ast.walk(n)), rid,
-                        f"{fn.qualname}#address-filter",
-                        f"frames are skipped only if {ast.unparse(n.test)}: a frame with one foreign address is taken as ours", loc=f"{fn.module.relpath}:{n.lineno}")
-    if not found:
+    partial = []
+    for n in ast.walk(node):
+        if not (isinstance(n, ast.If) and any(isinstance(s, ast.Continue) for s in ast.walk(n))):
+            continue
+        if m is not None:
+            t_expr = ast.parse(m.mtext(fn, n.test), mode="eval").body
+        else:
+            t_expr = n.test
+        got = cnf(t_expr, True)
+        if got is None:
+            continue
+        got_n = {frozenset((t.replace(" ", ""), p) for t, p in c) for c in got}
+        if got_n == want:
+            found = True
+            r.ok(rid, f"{fn.qualname}#address-filter", f"frames are skipped iff {ast.unparse(n.test)}")
+        elif any(lit in c for c in got_n for w in want for lit in w) and got_n != want:
+            partial.append(ast.unparse(n.test))
+    if not found and partial:
+        r.violation(rid, f"{fn.qualname}#address-filter",
+                    f"frames are skipped only if {partial}: a frame with one foreign address is taken as ours (expected: skipped if {sorted(atoms_want)} - either one)", fn.loc)
+    elif not found:
         r.violation(rid, f"{fn.qualname}#address-filter",
                     f"the address filter with atoms {sorted(atoms_want)} was not found: frames of other address pairs are not skipped", fn.loc)
 
